@@ -474,7 +474,8 @@ func (g *Gen) paletteExpr(ctx int) {
 		g.tok(token.PLUS, "+")
 		id()
 	default:
-		g.tok(token.STRING, "s")
+		// a string with a two-byte character: columns are counted in bytes
+		g.tok(token.STRING, "s\u00e9")
 		g.emit(KString)
 	}
 	if paren {
